@@ -27,11 +27,13 @@ PROPS = {
                        'gen_hasref:lemma_C03_same_unit_is_amount_arithmetic', 'gen_hasref:lemma_C03_result_in_left_unit']},
     'C04': {'level': 'proof', 'quick': ['gen_hasref'] + TYPES_REF, 'thorough': ['types_astro_f64_ref'],
             'expect': ['gen_hasref:trait HasRefUnit::_fit']},
-    'C05': {'level': 'proof', 'quick': ['gen_hasref'] + TYPES_REF, 'thorough': ['types_astro_f64_ref'],
+    'C05': {'level': 'proof', 'quick': ['gen_hasref'] + TYPES_REF + ['kani_q_f64:ufs', 'kani_q_f64:fit'],
+            'thorough': ['types_astro_f64_ref', 'kani_q_dec:ufs', 'kani_q_dec:fit', 'kani_astro_f64:ufs', 'kani_astro_f64:fit'],
             'expect': ['gen_hasref:trait HasRefUnit::_fit', 'gen_hasref:lemma_C05_natural_unit_product', 'gen_hasref:lemma_C05_natural_unit_quotient',
                        'gen_hasref:lemma_C05_fitted_unit_product', 'gen_hasref:lemma_C05_fitted_unit_quotient',
                        'gen_hasref:lemma_C05_reference_units_product', 'gen_hasref:lemma_C05_reference_units_quotient']},
-    'C07': {'level': 'proof', 'quick': ['c07_q_f64', 'c07_q_dec', 'c07_astro_f64'] + TYPES_REF, 'thorough': ['types_astro_f64_ref'],
+    'C07': {'level': 'proof', 'quick': ['c07_q_f64', 'c07_q_dec', 'c07_astro_f64'] + TYPES_REF + ['kani_q_f64:tab'],
+            'thorough': ['types_astro_f64_ref', 'kani_q_dec:tab', 'kani_astro_f64:tab'],
             'expect': ['c07_q_f64:lemma_C07_scale_Length_Inch', 'c07_q_dec:lemma_C07_scale_Length_Inch', 'c07_astro_f64:lemma_C07_scale_Length_Parsec',
                        'c07_q_f64:lemma_C07_si_prefixes_consistent_Mass', 'types_q_f64_ref:lemma_C07_ref_unit_scale_one_Length',
                        'types_q_f64_ref:impl LinearScaledUnit for LengthUnit::scale']},
@@ -39,10 +41,23 @@ PROPS = {
             'expect': ['gen_hasref:impl Quantity for AmountT::new', 'gen_hasref:impl Quantity for AmountT::amount',
                        'gen_hasref:impl Quantity for AmountT::unit', 'gen_hasref:impl LinearScaledUnit for One::scale',
                        'gen_hasref:impl Mul < One > for AmountT::mul', 'gen_hasref:impl Mul < AmountT > for One::mul']},
-    'C10': {'level': 'proof', 'quick': ['gen_quantity'] + TYPES_NOREF,
+    'C09': {'level': 'proof', 'quick': TYPES_REF + ['kani_q_f64:reg', 'kani_q_f64:ufs', 'kani_q_f64:sym'],
+            'thorough': ['types_astro_f64_ref', 'kani_q_dec:reg', 'kani_q_dec:ufs', 'kani_q_dec:sym', 'kani_astro_f64:reg', 'kani_astro_f64:ufs',
+                         'kani_astro_f64:sym', 'kani_q_f64:symc'],
+            'expect': ['kani_q_f64:reg::k_reg_Length', 'kani_q_f64:reg::k_asqty_Length', 'kani_q_f64:ufs::k_ufs_Length',
+                       'kani_q_f64:sym::k_sym_declared_Length', 'kani_q_f64:reg::k_reg_Temperature']},
+    'C10': {'level': 'proof', 'quick': ['gen_quantity'] + TYPES_NOREF + ['kani_q_f64:noref'], 'thorough': ['kani_q_dec:noref'],
             'expect': ['gen_quantity:trait Quantity::eq', 'gen_quantity:trait Quantity::partial_cmp', 'gen_quantity:trait Quantity::add',
                        'gen_quantity:trait Quantity::sub', 'gen_quantity:trait Quantity::div',
                        'gen_quantity:lemma_C10_equal_only_if_same_unit_and_amount', 'gen_quantity:lemma_C10_different_units_unordered']},
+    'C14': {'level': 'proof', 'quick': ['kani_q_f64:conv'], 'thorough': ['kani_q_dec:conv'],
+            'expect': ['kani_q_f64:conv::k_conv_select_n3', 'kani_q_f64:conv::k_conv_temperature_total', 'kani_q_f64:conv::k_conv_dataflow']},
+    'C16': {'level': 'proof', 'quick': ['kani_q_f64:si', 'kani_q_f64:si2'],
+            'expect': ['kani_q_f64:si::k_si_from_exp_all', 'kani_q_f64:si::k_si_iter', 'kani_q_f64:si::k_si_row_KILO']},
+    'C18': {'level': 'proof', 'quick': ['gen_hasref', 'gen_quantity', 'types_q_f64_ref', 'types_q_f64_noref', 'kani_q_f64:total', 'kani_q_f64:totald',
+                                          'kani_q_f64:ufs', 'kani_q_f64:fit', 'kani_q_f64:sym', 'kani_q_f64:conv', 'kani_q_f64:noref'],
+            'thorough': ['types_astro_f64_ref', 'kani_astro_f64:total', 'kani_astro_f64:ufs', 'kani_astro_f64:fit'],
+            'expect': ['gen_hasref:trait HasRefUnit::_fit', 'kani_q_f64:fit::k_fit_Length', 'kani_q_f64:total::k_total_like_Length']},
     'C13': {'level': 'proof', 'quick': ['gen_quantity'] + TYPES_Q, 'thorough': ['types_astro_f64_ref'],
             'expect': ['gen_quantity:impl Rate::new', 'gen_quantity:impl Rate::from_qty_vals', 'gen_quantity:impl Rate::term_amount',
                        'gen_quantity:impl Rate::term_unit', 'gen_quantity:impl Rate::per_unit_multiple', 'gen_quantity:impl Rate::per_unit',
